@@ -121,12 +121,32 @@ type rig struct {
 
 var rigSeq int
 
-func newRig(cs *aCase) (*rig, error) {
+// rigOpt: what the live-maintenance and the concurrent clauses change in the
+// rig (zero value = Part A: capacity 32, antispam maintenance timer at 1 h, no
+// logger).
+type rigOpt struct {
+	Capacity int
+	Interval time.Duration // Settings.Antispam.MaintenanceInterval (0 = 1 h: rounds are driven explicitly)
+	Logger   *zap.Logger
+}
+
+func newRig(cs *aCase) (*rig, error) { return newRigOpt(cs, rigOpt{}) }
+
+func newRigOpt(cs *aCase, opt rigOpt) (*rig, error) {
 	rigSeq++
+	if opt.Capacity == 0 {
+		opt.Capacity = 32
+	}
+	if opt.Interval == 0 {
+		opt.Interval = time.Hour
+	}
+	if opt.Logger == nil {
+		opt.Logger = zap.NewNop()
+	}
 	threshold := pipeline.DefaultAntispamThreshold
 	settings := &pipeline.Settings{
 		Decoder:                 cs.Decoder,
-		Capacity:                32,
+		Capacity:                opt.Capacity,
 		MaintenanceInterval:     time.Hour,
 		EventTimeout:            pipeline.DefaultEventTimeout,
 		AvgEventSize:            256,
@@ -139,7 +159,7 @@ func newRig(cs *aCase) (*rig, error) {
 		Pool:                    pipeline.PoolType(cs.Pool),
 		Metric:                  &pipeline.MetricSettings{HoldDuration: pipeline.DefaultMetricHoldDuration, MaxLabelValueLength: pipeline.DefaultMetricMaxLabelValueLength},
 	}
-	as := pipeline.AntispamSettings{Threshold: threshold, MaintenanceInterval: time.Hour} // rounds are driven explicitly
+	as := pipeline.AntispamSettings{Threshold: threshold, MaintenanceInterval: opt.Interval} // Part A: 1 h, rounds are driven explicitly
 	if cs.Antispam {
 		ex, err := realExceptions(cs.Spam.Exceptions)
 		if err != nil {
@@ -152,7 +172,7 @@ func newRig(cs *aCase) (*rig, error) {
 		as.Threshold, as.Exceptions, as.Rules = cs.Spam.Threshold, ex, rules
 	}
 	settings.Antispam = as
-	p := pipeline.New(fmt.Sprintf("c20_%d", rigSeq), settings, prometheus.NewRegistry(), zap.NewNop())
+	p := pipeline.New(fmt.Sprintf("c20_%d", rigSeq), settings, prometheus.NewRegistry(), opt.Logger)
 	in := &hInput{saved: map[pipeline.SourceID]map[string]int64{}, pass: map[int64]bool{}}
 	for sid, m := range cs.Saved {
 		n, _ := strconv.ParseUint(sid, 10, 64)
